@@ -52,8 +52,10 @@ void adapter_exec(Ev *ev)
     Src s = { in, n, 0, (size_t)ev->a[1], (int)ev->a[2], 1 };
     size_t cap = 2 * n + 8;
     Snk k = { xblock(cap), 0, cap, 0, (size_t)ev->a[3], (int)ev->a[4], 1 };
-    Source source = OCTET_SOURCE_INIT(src_octet, &s);
-    Sink sink = CHUNK_SINK_INIT(snk_chunk, &k);
+    /* endpoint flavours (driver.h): the sink keeps its whole-chunk style when a sink refusal is scheduled by call number */
+    Source source; Sink sink; FlavOSource fo; FlavSink fk;
+    flav_osource_init(&source, &fo, src_octet, &s, harness_flavour & 1);
+    flav_sink_init(&sink, &fk, snk_chunk, &k, k.at ? 0 : harness_flavour >> 1);
     RFC1055Context ctx;
     rfc1055_context_init(&ctx, sof);
     if (isrun) {
